@@ -158,12 +158,14 @@ func (d Degree) Semitone() (Semitone, bool) {
 		return 0, false
 	}
 
+	// perfect1 is identical to perfect8: reduce by whole octaves at once
+	octaves := (d.Value - 2) / (perfect8.Value - 1)
 	e := Degree{
-		Value: d.Value - perfect8.Value + 1, // perfect1 is identical
+		Value: d.Value - octaves*(perfect8.Value-1),
 		Name:  d.Name,
 	}
 	if v, ok := e.Semitone(); ok {
-		return v + degreeSemitoneMap[perfect8], true
+		return v + Semitone(octaves)*degreeSemitoneMap[perfect8], true
 	}
 	return 0, false
 }
